@@ -68,6 +68,28 @@ func configs(thorough bool) []cfgCase {
 	return out
 }
 
+// mtuConfigs: handshakes whose flights span several datagrams (MTU 200 on both sides: a DTLS 1.3 server flight
+// is about eleven datagrams and the client acknowledges parts of it under the handshake epoch before its own
+// flight opens that epoch "for the first time"). Only the retransmission family runs on them.
+func mtuConfigs() []cfgCase {
+	var out []cfgCase
+	for _, cid := range []int{0, 4} {
+		for _, b := range []cfgCase{
+			suiteVariant("12-gcm128-mtu200", dtls.TLS_ECDHE_ECDSA_WITH_AES_128_GCM_SHA256, false, cid, false),
+			suiteVariant("13-aes128gcm-mtu200", dtls.TLS_AES_128_GCM_SHA256, false, cid, true),
+			suiteVariant("13-aes128gcm-smtu400", dtls.TLS_AES_128_GCM_SHA256, false, cid, true),
+		} {
+			if strings.Contains(b.name, "smtu400") {
+				b.v.S.MTU = 400
+			} else {
+				b.v.C.MTU, b.v.S.MTU = 200, 200
+			}
+			out = append(out, b)
+		}
+	}
+	return out
+}
+
 type opKind byte
 
 const (
@@ -475,7 +497,7 @@ func lossRun(t *testing.T, p *world.PKI, cc cfgCase, clientSends bool, k int, ac
 		n.Flush()
 		dec := pr.NewDecoder()
 		recs := dec.Poll()
-		o.NonTrivial = n.Faulted > 0
+		o.NonTrivial = n.Faulted > 0 || k < 0
 		var viol []string
 		counts := map[string]int{}
 		for _, e := range []*world.Endpoint{pr.C, pr.S} {
@@ -574,5 +596,32 @@ func TestC09(t *testing.T) {
 			}
 		}
 	}
-	run.Main(t, "C09", cases, map[string]any{"configs": len(configs(env.Thorough())), "ops_alphabet": "Write a/b/c, peer retransmission, UpdateKeys (1.3), transient send failure, Close", "max_concurrent_ops": 3, "holds": "none, emission 0, 1, 2"})
+	for _, cc := range mtuConfigs() {
+		for _, clientSends := range []bool{true, false} {
+			side := "server"
+			if clientSends {
+				side = "client"
+			}
+			for k := -1; k < 14; k++ {
+				for _, act := range []world.Action{world.ActDrop, world.ActDup, world.ActHold3} {
+					if k < 0 && act != world.ActDrop {
+						continue // k = -1: no fault at all (the mask names a datagram that does not exist)
+					}
+					cc, clientSends, k, act := cc, clientSends, k, act
+					kk := k
+					if k < 0 {
+						kk = 1 << 20
+					}
+					cases = append(cases, run.Case{ID: fmt.Sprintf("%s/%s/loss-%d-%s", cc.name, side, k, act), Run: func(t *testing.T) run.Outcome {
+						o := lossRun(t, p, cc, clientSends, kk, act, env.Seed+1)
+						if k < 0 && o.Violation == "" && !o.Skip {
+							o.NonTrivial = true
+						}
+						return o
+					}})
+				}
+			}
+		}
+	}
+	run.Main(t, "C09", cases, map[string]any{"mtu_configs": len(mtuConfigs()), "configs": len(configs(env.Thorough())), "ops_alphabet": "Write a/b/c, peer retransmission, UpdateKeys (1.3), transient send failure, Close", "max_concurrent_ops": 3, "holds": "none, emission 0, 1, 2"})
 }
